@@ -86,8 +86,8 @@ def synth_corners_2d(cx, cy):
         for i in range(ni):
             ring = [(gx[j][i], gy[j][i]), (gx[j][i + 1], gy[j][i + 1]),
                     (gx[j + 1][i + 1], gy[j + 1][i + 1]), (gx[j + 1][i], gy[j + 1][i])]
-            if any(math.isnan(v) for p in ring for v in p):
-                cells.append(None)
+            if isn[j, i] or any(math.isnan(v) for p in ring for v in p):
+                cells.append(None)      # "a cell with missing coordinates has no polygon" (C06)
             else:
                 cells.append(ring)
     return cells
@@ -326,8 +326,15 @@ def make_cf2d(rng, *, shoc=False, nj=None, ni=None, bounds=None, holes=None, coo
                       lat_name=lat_name, lon_name=lon_name, ident=ident)
     m.kinds = {'face': Kind('face', (ydim, xdim), (nj, ni))}
     m.derived_geometry = bounds == 'none'
+    m.skip_cells = set()
     if bounds == 'none':
         m.cells = synth_corners_2d(cx, cy)
+        # Synthesised corners collapse where a cell has no valid neighbour on one side (grid border next to a
+        # hole): such zero-area rings are outside what the oracle asserts (neither polygon nor hole demanded).
+        from .ugrid import signed_area
+        for n, ring in enumerate(m.cells):
+            if ring is not None and abs(signed_area(ring)) < 1e-6:
+                m.skip_cells.add(n)
     else:
         lon_b = numpy.stack([nx[:-1, :-1], nx[:-1, 1:], nx[1:, 1:], nx[1:, :-1]], axis=-1)
         lat_b = numpy.stack([ny[:-1, :-1], ny[:-1, 1:], ny[1:, 1:], ny[1:, :-1]], axis=-1)
@@ -352,6 +359,9 @@ def make_cf2d(rng, *, shoc=False, nj=None, ni=None, bounds=None, holes=None, coo
         for i in range(ni):
             m.centres.append(None if removed[j, i] else (float(cx[j, i]), float(cy[j, i])))
     m.removed = removed
+    lcx = (nx[:-1, :-1] + nx[:-1, 1:] + nx[1:, 1:] + nx[1:, :-1]) / 4
+    lcy = (ny[:-1, :-1] + ny[:-1, 1:] + ny[1:, 1:] + ny[1:, :-1]) / 4
+    m.hole_centres = [(float(lcx[j, i]), float(lcy[j, i])) for j in range(nj) for i in range(ni) if removed[j, i]]
     m.geometry_names = [lon_name, lat_name] + ([lon_name + '_bounds', lat_name + '_bounds'] if bounds != 'none' else [])
     if shoc:
         m.extras_naming = {'time': ('time', 'time'), 'depth': ('zc', 'k')}
@@ -430,6 +440,9 @@ def make_shoc_standard(rng, *, nj=None, ni=None, holes=None, coord_style=None, m
     m.encoding = dict(holes=holes, coord_style=coord_style, map=map_kind)
     m.derived_geometry = False
     m.removed = ~face_has_geom
+    lcx = (nx[:-1, :-1] + nx[:-1, 1:] + nx[1:, 1:] + nx[1:, :-1]) / 4
+    lcy = (ny[:-1, :-1] + ny[:-1, 1:] + ny[1:, 1:] + ny[1:, :-1]) / 4
+    m.hole_centres = [(float(lcx[j, i]), float(lcy[j, i])) for j in range(nj) for i in range(ni) if not face_has_geom[j, i]]
     for j in range(nj):
         for i in range(ni):
             if face_has_geom[j, i]:
